@@ -8697,7 +8697,7 @@ let prog_table =
     true, true, false, true, true, false)), (String ((Ascii (false, false,
     true, false, true, true, true, false)),
     EmptyString)))))))))))))))))))))))))))))))))))),
-    (block ((SIf ((COr ((CByte (Npos (XO (XI (XO XH))))), (CByte N0))),
+    (block ((SIf ((COr (CNewLine, (CByte N0))),
       (block (SPop :: (SRetRedispatch :: []))),
       (block (SRetNil :: [])))) :: []))) :: (((String ((Ascii (true, true,
     false, false, true, true, true, false)), (String ((Ascii (false, false,
